@@ -1,13 +1,72 @@
-"""Cross-type comparison and hashing, second batch (C14): FBig vs integers (NumOrd / AbsOrd), FBig and rationals vs f32 / f64,
-NumHash of UBig / IBig.  Vocabulary + trusted stubs: contracts/lib/no_*.rs (+ gcdo_numord_stubs.rs, gcdo_numhash_stubs.rs);
+"""Cross-type comparison and hashing, second batch (C14): FBig vs integers (NumOrd / AbsOrd), FBig in different bases, FBig and
+rationals vs f32 / f64, rationals vs integers, the remaining integer arms, NumHash of UBig / IBig and of the rational Repr.
+Vocabulary + trusted stubs: contracts/lib/no_*.rs (+ gcdo_numord_stubs.rs, gcdo_numhash_stubs.rs, gcdo_cmpf_stubs.rs);
 annotated copies: contracts/annot/{float,rational,integer}/numorder2/."""
 VERUS = {
+    # float/src/cmp.rs repr_cmp_ubig / repr_cmp_ibig<B, ABS> (any base B >= 2) and the 72 impl methods that dispatch to them
+    # (cmp.rs impl_abs_ord_with_method!, num_order.rs impl_num_ord_with_method!, forward_num_ord_to_repr!(UBig / IBig),
+    # impl_num_ord_fbig_unsigned!, impl_num_ord_with_signed! for all 12 primitive integer types; both directions, Repr and FBig):
+    #   infinite float: Greater if +inf or ABS else Less;  otherwise ret == ordering of s * B^e against x (of |s| B^e against |x|
+    #   if ABS), cleared of the power: e >= 0: cmp(s * B^e, x), e < 0: cmp(s, x * B^-e);  mirrored impls: the reverse.
+    #   The f32 log2 filter is ASSUMED sound; infinities (the `|| ABS` flag), signs and the exact step are proved.
     'num_order_float_int': {'file': 'num_order_float_int.rs'},
+    # float/src/third_party/num_order.rs impl_num_ord_with_float!: NumOrd<f32 / f64> for Repr<B>, the mirrored arm, and the FBig
+    # forwarding impls (forward_num_ord_to_repr!(f32 / f64)):  NaN => None;  both infinite of one sign => Equal;  otherwise the
+    # ordering of s * B^e against man * 2^ex, cross-multiplied (cmp_repr_prim).  The bit-length shortcuts (step 3 "bigger than
+    # every finite float", step 4) are PROVED from exact enclosures 2^(lb-1) <= |self| < 2^ub -- no f32 estimate is involved.
     'num_order_float_prim': {'file': 'num_order_float_prim.rs'},
+    # float/src/third_party/num_order.rs `NumOrd<Repr<B2>> for Repr<B1>` + FBig forwarding: floats in DIFFERENT bases compare as
+    # s1 * B1^e1 vs s2 * B2^e2 (cross-multiplied), infinities by sign; f32 log2 filter ASSUMED sound
+    'num_order_float_bases': {'file': 'num_order_float_bases.rs'},
+    # rational/src/third_party/num_order.rs impl_num_ord_with_float!: NumOrd<f32 / f64> for the rational Repr + the RBig / Relaxed
+    # forwarding impls in both directions:  NaN => None, infinities, otherwise cmp(n * 2^-ex, man * d * 2^ex) (cmp_ratio_prim);
+    # the bit-length shortcuts PROVED from 2^(nb-db-1) <= |n/d| < 2^(nb-db+1) and 2^(mb+ex-1) <= |f| < 2^(mb+ex), mb = bit length
+    # of the MANTISSA (subnormals)
     'num_order_ratio_prim': {'file': 'num_order_ratio_prim.rs'},
+    # rational/src/cmp.rs repr_cmp_ubig / repr_cmp_ibig<ABS> and 70 impl methods that dispatch to them (AbsOrd<UBig / IBig> for
+    # Repr, forward_abs_ord_to_repr!, NumOrd<UBig / IBig> for Repr, forward_num_ord_to_repr! for RBig / Relaxed x UBig / IBig /
+    # u64 / i64 in both directions, impl_num_ord_with_unsigned! / _signed! for all 12 primitive types):
+    #   ret == cmp(n, x * d)  (cmp(|n|, |x| * d) if ABS);  f32 log2 filter ASSUMED sound
+    'num_order_ratio_int': {'file': 'num_order_ratio_int.rs'},
+    # integer/src/third_party/num_order.rs: NumOrd<f32 / f64> for IBig (bit-length shortcuts on the magnitudes, sign applied, exact
+    # step), the mirrored arms NumOrd<UBig / IBig> for f32 / f64, NumOrd between UBig and IBig (4 impls), and with all 12
+    # primitive integer types (4 macros, both directions): ret == ordering of the exact values, None for NaN
+    'num_order_int_arms': {'file': 'num_order_int_arms.rs'},
+    # integer/src/third_party/num_order.rs NumHash for UBig / IBig: fed == sgn(n) * (|n| mod (2^127 - 1)) (num-order's integer hash;
+    # lemma_i128_hash: equal to what i128::num_hash feeds for every i128, e.g. 0 for 2^127 - 1)
     'num_hash_int': {'file': 'num_hash_int.rs'},
+    # rational/src/third_party/num_order.rs NumHash for Repr: d mod M != 0: |h| < M, sign(h) = sign(n) (or 0), |h| * d == |n| (mod M);
+    # d mod M == 0: h == 0  (M = 2^127 - 1; num-order's hash of the rational n/d, same shape as num_hash_float for e < 0)
+    'num_hash_ratio': {'file': 'num_hash_ratio.rs'},
 }
+
+_FILTER = ('the f32 log2 filter agrees with the exact comparison (log2_bounds of Repr<B> / rational Repr / UBig / IBig are enclosures '
+           'of log2 |value|, f32 `>` / `<` compare the reals, 2^x is monotone: ax_est_gt / ax_est_lt) -- only the infinity / sign '
+           'cases and the exact step are proved')
 PROP_UNITS = {
-    'C14': {'verus': ['num_order_float_int', 'num_order_float_prim', 'num_order_ratio_prim', 'num_hash_int'],
-            'undecided': []},
+    'C14': {'verus': ['num_order_float_int', 'num_order_float_prim', 'num_order_float_bases', 'num_order_ratio_prim',
+                      'num_order_ratio_int', 'num_order_int_arms', 'num_hash_int', 'num_hash_ratio'],
+            'undecided': [
+                'num_order_float_int / num_order_float_bases ASSUME (lib/no_float_stubs.rs, lib/no_ord_stubs.rs, trusted): ' + _FILTER +
+                '; utils::shl_digits / shl_digits_in_place (exact multiplication by B^n), IBig <<= / clone / From<UBig> / From<primitive> '
+                '(lib/no_prim_from.rs), Ordering::reverse, Sign * Ordering; mirrored structs Repr<B> / FBig / Context; resource '
+                'precondition |exponent| <= 2^56; num_order_float_bases requires canonical infinities (exponent +-1, what the '
+                'constructors build)',
+                'num_order_float_prim / num_order_ratio_prim / num_order_int_arms use the abstract f32 / f64 model of lib/gcdo_numord_stubs.rs '
+                '(trusted, decode proved by Kani group base_bit) plus lib/no_prim_stubs.rs (u64::bit_len <= 64, From<i32 / i64> for IBig); '
+                'the default method NumOrd::num_cmp of the num-order crate (`num_partial_cmp(..).unwrap()`) is ASSUMED where an impl does '
+                'not override it (float operands); every other trait impl in the unit templates is a verified one-line forward to the '
+                'hoisted real method (lib/no_numord_trait.rs)',
+                'num_order_ratio_int ASSUMES (lib/gcdo_cmpf_stubs.rs + lib/no_ratio_int_stubs.rs, trusted): ' + _FILTER +
+                '; &UBig * &UBig, AbsOrd<UBig> for IBig; not under contract: impl_ord_between_ratio! (RBig vs Relaxed: forwards to '
+                'Repr::cmp / eq, C05 unit ratio_cmp), the `mod with_float` forwarding impls around repr_cmp_fbig (proved in '
+                'num_order_ratio_fbig), forward_num_ord_to_repr! instantiated for primitive integers other than u64 / i64 (same tokens)',
+                'num_order_int_arms ASSUMES (lib/no_int_ord_stubs.rs, trusted): UBig::from_unsigned / IBig::from_unsigned / from_signed '
+                '(value-exact), IBig::as_sign_repr / UBig::repr / Ord for TypedReprRef (compare the magnitudes), IBig << usize',
+                'num_hash_int / num_hash_ratio ASSUME (lib/no_int_hash_stubs.rs, lib/no_ratio_hash_stubs.rs, lib/gcdo_numhash_stubs.rs, '
+                'trusted): `&UBig % u128`, `&IBig % i128` (truncated), Hash for i128 writes the number, NumHash for i128 of num-order, '
+                'FixedMersenneInt<127, 1> arithmetic and the primality of 2^127 - 1, Sign * i128, IBig::is_positive; TryFrom<&UBig> for '
+                'i128 is specified but unused; the RBig / Relaxed / FBig NumHash forwarding impls (`self.0.num_hash(state)`) are '
+                'not under contract; that equal values of different types satisfy the same hash relation with a UNIQUE solution '
+                '(d invertible mod 2^127 - 1) is the meta-argument, not a machine-checked statement']},
 }
